@@ -107,6 +107,19 @@ CLAIMED = {
             "progress never exceed the limit on the full entry/exit log, every job executed within the bound, a free "
             "slot is refilled within 0.5 s.",
             FAKES + " Liveness as bounded response.", "DESIGN.md 4 C09"),
+    "C11": ("model_checking", "exhaustive registration sequences (static maps) and registration x job sequences on real workers",
+            "All 1884 registration sequences of length <= 3 over name x queue x holder against the model of "
+            "Worker(routers=...) (actor map, topics_by_queue); all sequences of length <= 2 plus every re-registering "
+            "length-3 sequence x job sequences x complementary second worker x tasks_limit x broker on real workers: which "
+            "registration ran which id, foreign messages untouched and available to the worker that serves them.",
+            FAKES + " The quick tier thins the Redis/RabbitMQ product by a fixed rotation.", "DESIGN.md 4 C11"),
+    "C07": ("exploration", "bounded-exhaustive enumeration of values, settings, transports, codec grids and names",
+            "19 argument values x 3 transports x 3 brokers through Job.enqueue -> consume -> worker -> actor; the full product "
+            "of job settings x transports x brokers through enqueue -> consume with field-by-field comparison; "
+            "decode(encode(x)) == x for all parameter / bucket codecs over timestamp x duration grids (incl. all powers of "
+            "two of microseconds to 2^51 and 100 years +-1 us); all 584 strings of length <= 3 over an 8-letter alphabet as "
+            "ids / names through validators and key encodings.",
+            FAKES + " Finite alphabets; payloads with the reserved bucket marker excluded.", "DESIGN.md 4 C07"),
 }
 
 PENDING_REASON = "check not built yet in this revision of /verif (see DESIGN.md section 4 for the plan)"
